@@ -254,7 +254,12 @@ def _h5(ctx, rep):
         ok = seen.get(True) == {"is_eq_constraint_satisfied_all"} and seen.get(False) == {True} and "?" not in seen
         if not ok:
             why += " (paths: %s)" % {str(k): sorted(map(str, v)) if isinstance(v, set) else v for k, v in seen.items()}
-    rep.check(ok, "H5", f, "LinearEstimator", "eq constraint iff parametrised", why, node=lb)
+    if not ok and (not cs or "?" in seen or set(seen) != {True, False}):
+        # the two paths (flag set / not set) could not both be read: nothing is claimed about them
+        rep.undecided("H5", f, "LinearEstimator", "the paths taken for a LinearEstimator are not of the form `flag -> check / True`: %s"
+                      % ({str(k): sorted(map(str, v)) if isinstance(v, set) else v for k, v in seen.items()} if cs else "no path summaries"))
+    else:
+        rep.check(ok, "H5", f, "LinearEstimator", "eq constraint iff parametrised", why, node=lb)
     mb = branches["LossMinimizationEstimator"]
     txt = {}
     for n in ast.walk(mb):
@@ -266,6 +271,10 @@ def _h5(ctx, rep):
         and defs.get("on_algo_ineq_constraint", "").endswith("algo_option.on_algo_ineq_constraint")
     fal = [n for n in ast.walk(mb) if isinstance(n, ast.If) and unparse(n.test) == "False in results"]
     ok = ok and len(fal) == 1 and any(isinstance(s, ast.Return) and const(s.value) is False for s in fal[0].body)
+    if not ok and (set(txt) != {"on_algo_eq_constraint", "on_algo_ineq_constraint"} or not {"on_algo_eq_constraint", "on_algo_ineq_constraint"} <= set(defs)):
+        rep.undecided("H5", f, "LossMinimizationEstimator", "no `if on_algo_eq_constraint:` / `if on_algo_ineq_constraint:` pair bound from the algorithm "
+                                                           "option found in the branch: the dispatch is outside the recognised forms")
+        return
     rep.check(ok, "H5", f, "LossMinimizationEstimator", "each enabled flag checks its own constraint; any failure fails the check",
               "dispatch is %s with flags %s" % (txt, {k: v for k, v in defs.items() if "algo" in k}), node=mb)
 
